@@ -36,6 +36,8 @@ def prepare_process():
         pass
     import warnings
     warnings.simplefilter("ignore")
+    from .storage import install_sql_seam
+    install_sql_seam()
     gc.disable()  # collected explicitly between runs: no finaliser fires mid-run
 
 
@@ -80,6 +82,8 @@ class Sim:
         self.ch = ch
         self.net = SimNet()
         self.loop = SimLoop(self.net)
+        from .storage import SEAM
+        SEAM.reset(self.net)
         self.status = None
         self.result = None
         self.error = None
